@@ -564,6 +564,168 @@ func (e *regEnv) oracleEnums(ctx *Ctx) {
 	}
 }
 
+// ---- the enumeration iterators --------------------------------------------------------------------------------------
+
+// enumIter[T] instantiates the generic ttlv.EnumValues for one Go type (generic functions cannot be reached by reflection).
+func enumIter[T ~uint32]() func(stop int) (map[uint32]string, int) {
+	return func(stop int) (map[uint32]string, int) {
+		got, n := map[uint32]string{}, 0
+		for v, name := range ttlv.EnumValues[T]() {
+			got[uint32(v)] = name
+			n++
+			if n == stop {
+				break
+			}
+		}
+		return got, n
+	}
+}
+
+// staticEnumIters: ttlv.EnumValues[T] for the enumeration types of the API, by reflect.Type.String().
+var staticEnumIters = map[string]func(stop int) (map[uint32]string, int){
+	"kmip.ResultStatus": enumIter[kmip.ResultStatus](), "kmip.ResultReason": enumIter[kmip.ResultReason](), "kmip.CredentialType": enumIter[kmip.CredentialType](),
+	"kmip.RevocationReasonCode": enumIter[kmip.RevocationReasonCode](), "kmip.BatchErrorContinuationOption": enumIter[kmip.BatchErrorContinuationOption](),
+	"kmip.NameType": enumIter[kmip.NameType](), "kmip.ObjectType": enumIter[kmip.ObjectType](), "kmip.OpaqueDataType": enumIter[kmip.OpaqueDataType](),
+	"kmip.State": enumIter[kmip.State](), "kmip.CryptographicAlgorithm": enumIter[kmip.CryptographicAlgorithm](), "kmip.BlockCipherMode": enumIter[kmip.BlockCipherMode](),
+	"kmip.PaddingMethod": enumIter[kmip.PaddingMethod](), "kmip.HashingAlgorithm": enumIter[kmip.HashingAlgorithm](), "kmip.KeyRoleType": enumIter[kmip.KeyRoleType](),
+	"kmip.RecommendedCurve": enumIter[kmip.RecommendedCurve](), "kmip.SecretDataType": enumIter[kmip.SecretDataType](), "kmip.KeyFormatType": enumIter[kmip.KeyFormatType](),
+	"kmip.KeyCompressionType": enumIter[kmip.KeyCompressionType](), "kmip.WrappingMethod": enumIter[kmip.WrappingMethod](), "kmip.CertificateType": enumIter[kmip.CertificateType](),
+	"kmip.LinkType": enumIter[kmip.LinkType](), "kmip.QueryFunction": enumIter[kmip.QueryFunction](), "kmip.UsageLimitsUnit": enumIter[kmip.UsageLimitsUnit](),
+	"kmip.CancellationResult": enumIter[kmip.CancellationResult](), "kmip.PutFunction": enumIter[kmip.PutFunction](), "kmip.CertificateRequestType": enumIter[kmip.CertificateRequestType](),
+	"kmip.SplitKeyMethod": enumIter[kmip.SplitKeyMethod](), "kmip.ObjectGroupMember": enumIter[kmip.ObjectGroupMember](), "kmip.EncodingOption": enumIter[kmip.EncodingOption](),
+	"kmip.DigitalSignatureAlgorithm": enumIter[kmip.DigitalSignatureAlgorithm](), "kmip.AttestationType": enumIter[kmip.AttestationType](),
+	"kmip.AlternativeNameType": enumIter[kmip.AlternativeNameType](), "kmip.KeyValueLocationType": enumIter[kmip.KeyValueLocationType](),
+	"kmip.ValidityIndicator": enumIter[kmip.ValidityIndicator](), "kmip.RNGAlgorithm": enumIter[kmip.RNGAlgorithm](), "kmip.DRBGAlgorithm": enumIter[kmip.DRBGAlgorithm](),
+	"kmip.FIPS186Variation": enumIter[kmip.FIPS186Variation](), "kmip.ProfileName": enumIter[kmip.ProfileName](), "kmip.ValidationAuthorityType": enumIter[kmip.ValidationAuthorityType](),
+	"kmip.ValidationType": enumIter[kmip.ValidationType](), "kmip.UnwrapMode": enumIter[kmip.UnwrapMode](), "kmip.DestroyAction": enumIter[kmip.DestroyAction](),
+	"kmip.ShreddingAlgorithm": enumIter[kmip.ShreddingAlgorithm](), "kmip.RNGMode": enumIter[kmip.RNGMode](), "kmip.ClientRegistrationMethod": enumIter[kmip.ClientRegistrationMethod](),
+	"kmip.MaskGenerator": enumIter[kmip.MaskGenerator](), "kmip.KeyWrapType": enumIter[kmip.KeyWrapType](), "kmip.Operation": enumIter[kmip.Operation](),
+}
+
+// oracleEnumIter: the public enumerators of the registry (ttlv.EnumValuesByTag, ttlv.EnumValuesByName, ttlv.EnumValues[T])
+// yield EXACTLY the registered (value, name) pairs of the enumeration - all of them, each once, nothing else - as the
+// live table says and as the pin says; a consumer that stops early gets what it asked for; a tag / name / type without
+// enumeration yields nothing. (What a caller lists is what the writers write and the readers read.)
+func (e *regEnv) oracleEnumIter(ctx *Ctx) {
+	collect := func(seq func(func(uint32, string) bool), stop int) (map[uint32]string, int) {
+		got, n := map[uint32]string{}, 0
+		for v, name := range seq {
+			got[v] = name
+			n++
+			if n == stop {
+				break
+			}
+		}
+		return got, n
+	}
+	compare := func(what string, tag int, got map[uint32]string, n int, want map[uint32]string, line string) {
+		tn := ttlv.TagString(tag)
+		if n != len(got) {
+			e.violate(ctx, "C17", "enum-iterator", fmt.Sprintf("iter:%s:%s:duplicates", what, tn), fmt.Sprintf("%s of %s yields %d pairs for %d distinct values", what, tn, n, len(got)), line)
+		}
+		sorted := func(m map[uint32]string) []uint32 {
+			ks := make([]uint32, 0, len(m))
+			for k := range m {
+				ks = append(ks, k)
+			}
+			sort.Slice(ks, func(i, j int) bool { return ks[i] < ks[j] })
+			return ks
+		}
+		for _, v := range sorted(want) {
+			name := want[v]
+			if g, ok := got[v]; !ok || g != name {
+				e.violate(ctx, "C17", "enum-iterator", fmt.Sprintf("iter:%s:%s:missing", what, tn), fmt.Sprintf("%s of %s does not yield the registered pair (0x%08X, %q): got %q (present=%v); %d pairs yielded, %d registered", what, tn, v, name, g, ok, len(got), len(want)), fmt.Sprintf("reg.enumname %d %d", tag, v))
+				break
+			}
+		}
+		for _, v := range sorted(got) {
+			name := got[v]
+			if w, ok := want[v]; !ok {
+				e.violate(ctx, "C17", "enum-iterator", fmt.Sprintf("iter:%s:%s:extra", what, tn), fmt.Sprintf("%s of %s yields (0x%08X, %q), which the enumeration does not register (%q)", what, tn, v, name, w), fmt.Sprintf("reg.enumname %d %d", tag, v))
+				break
+			}
+		}
+	}
+	tags := map[int]bool{kmip.TagDerivationMethod: true, kmip.TagAttribute: true, 0x540001: true, 0: true, -1: true} // no table: nothing to yield
+	for _, en := range e.dump.Enums {
+		tags[en.Tag] = true
+	}
+	for _, tag := range sortedInts(tags) {
+		ctx.Res.Count("oracle.enum-iter")
+		want := e.live.enums[tag]
+		line := fmt.Sprintf("#reg.enumvalues %d", tag)
+		ctx.current = line
+		res, p := guard("EnumValuesByTag", func() string {
+			got, n := collect(ttlv.EnumValuesByTag(tag), -1)
+			compare("EnumValuesByTag", tag, got, n, want, line)
+			if name, ok := e.live.tags[tag]; ok {
+				got, n = collect(ttlv.EnumValuesByName(name), -1)
+				compare("EnumValuesByName", tag, got, n, want, line)
+			}
+			// a consumer that stops after k pairs gets k pairs (and the iterator stops)
+			for _, k := range []int{1, 2} {
+				if len(want) >= k {
+					if _, n := collect(ttlv.EnumValuesByTag(tag), k); n != k {
+						return fmt.Sprintf("a consumer stopping after %d pairs got %d", k, n)
+					}
+				}
+			}
+			return ""
+		})
+		if p != "" {
+			res = "panic " + p
+		}
+		if res != "" {
+			e.violate(ctx, "C17", "enum-iterator", "iter:EnumValuesByTag:"+ttlv.TagString(tag)+":early-stop", res, line)
+		}
+		// the pin: every pinned pair is listed
+		if e.pin != nil {
+			got, _ := collect(ttlv.EnumValuesByTag(tag), -1)
+			for _, x := range e.pin.enums {
+				if x.tag == tag && got[x.num] != x.name {
+					e.violate(ctx, "C17", "pinned-enum-iterator", fmt.Sprintf("pin:iter:%s", ttlv.TagString(tag)), fmt.Sprintf("EnumValuesByTag(%s) does not list the pinned pair (0x%08X, %q): got %q", ttlv.TagString(tag), x.num, x.name, got[x.num]), fmt.Sprintf("reg.enumname %d %d", tag, x.num))
+					break
+				}
+			}
+		}
+	}
+	if got, n := collect(ttlv.EnumValuesByName("NoSuchTagName"), -1); n != 0 {
+		e.violate(ctx, "C17", "enum-iterator", "iter:EnumValuesByName:unknown-name", fmt.Sprintf("EnumValuesByName of an unknown name yields %v", got), "#reg.enumvalues NoSuchTagName")
+	}
+	// the generic form, per Go type
+	reached := 0
+	for _, t := range e.dump.EnumTypes {
+		it, ok := staticEnumIters[t.Name]
+		if !ok {
+			ctx.Res.Count("iter.type-unreached:" + t.Name)
+			continue
+		}
+		reached++
+		tag := int(t.Value)
+		line := fmt.Sprintf("#reg.enumvalues %s", t.Name)
+		ctx.current = line
+		res, p := guard("EnumValues[T]", func() string {
+			got, n := it(-1)
+			compare("EnumValues["+t.Name+"]", tag, got, n, e.live.enums[tag], line)
+			if len(e.live.enums[tag]) >= 1 {
+				if _, n := it(1); n != 1 {
+					return fmt.Sprintf("a consumer stopping after 1 pair got %d", n)
+				}
+			}
+			return ""
+		})
+		if p != "" {
+			res = "panic " + p
+		}
+		if res != "" {
+			e.violate(ctx, "C17", "enum-iterator", "iter:EnumValues:"+t.Name+":early-stop", res, line)
+		}
+	}
+	if len(e.dump.EnumTypes) > 0 && reached*2 < len(e.dump.EnumTypes) {
+		ctx.Res.Fail(fmt.Sprintf("lost evidence: ttlv.EnumValues[T] was instantiated for %d of the %d registered enumeration types only", reached, len(e.dump.EnumTypes)))
+	}
+}
+
 // maskRoundTrip checks the three text forms of one mask value. Values made of REGISTERED flags only
 // (what is "written by name") are C17 in every form. For the zero mask and for unnamed bits (written as
 // nothing / as hex) the XML and JSON forms are the business of C04 (the defects the XML/JSON engines see),
@@ -1038,6 +1200,7 @@ func runRegistry(ctx *Ctx) {
 func (e *regEnv) oracles(ctx *Ctx) {
 	e.oracleTags(ctx)
 	e.oracleEnums(ctx)
+	e.oracleEnumIter(ctx)
 	e.oracleMasks(ctx)
 	e.oracleTypes(ctx)
 	e.oraclePin(ctx)
